@@ -160,7 +160,7 @@ class LieType(ABC):
 
     @classmethod
     def identity_(cls, X: LieTensor) -> LieTensor:
-        raise NotImplementedError("Instance has no identity_ method")
+        return X.copy_(cls.identity(dtype=X.dtype, device=X.device))
 
     def randn_like(self, *args, sigma=1.0, **kwargs):
         return self.randn(*args, sigma=sigma, **kwargs)
